@@ -167,6 +167,14 @@ def chain_equal(stats, hyps, code_terms, spec_terms, what, named=None, timeout_s
             subs.append((cb, cut))
 
 
+def assert_sat(stats, hyps, what, timeout_s=20):
+    """vacuity guard: the hypotheses of an obligation must be satisfiable"""
+    st, m, dt = smt.check(list(hyps), timeout_s, stats, want_model=False)
+    stats.log.append(("vacuity guard: " + what, st, round(dt, 3)))
+    if st == smt.UNSAT:
+        raise Inconclusive("vacuous obligation: hypotheses of '%s' are unsatisfiable" % what)
+
+
 def check_panics(stats, ctx, named=None, timeout_s=30, allow=None):
     """every MIR assert (overflow / bounds / explicit) recorded on this path must hold"""
     for kind, pc, cond, msg, where in ctx.obls:
